@@ -305,6 +305,31 @@ type emitCtx struct {
 	vmaps  []map[ssa.Value]ssa.Value // value maps of the enclosing emit levels (outermost first)
 }
 
+// devirtualiseInvoke: a method call through an interface whose dynamic type inlining has made known (a parameter of interface
+// type bound to `T(x)` converted at the call site) becomes the static call of T's method.
+func (e *emitCtx) devirtualiseInvoke(call *ssa.Call, look func(ssa.Value) ssa.Value) ssa.Instruction {
+	switch call.Call.Value.(type) {
+	case *ssa.Parameter, *ssa.FreeVar:
+	default:
+		return call
+	}
+	mi, ok := look(call.Call.Value).(*ssa.MakeInterface)
+	if !ok {
+		return call
+	}
+	prog := e.il.c.Prog
+	fn := prog.LookupMethod(mi.X.Type(), call.Call.Method.Pkg(), call.Call.Method.Name())
+	if fn == nil || len(fn.Blocks) == 0 || !inModule(fn) {
+		return call
+	}
+	nc := *call
+	nc.Call.Method = nil
+	nc.Call.Value = fn
+	nc.Call.Args = append([]ssa.Value{mi.X}, call.Call.Args...)
+	setField(&nc, "referrers", nil)
+	return &nc
+}
+
 // devirtualise returns a call equivalent to call whose callee is known statically where inlining has made it so: a
 // parameter or captured variable that is bound to a function, a closure or a method value at this inlined call site, and a
 // bound method value (`x.m` used as a function) called directly, which becomes the method call x.m(...).
@@ -465,6 +490,8 @@ func (e *emitCtx) emit(f *ssa.Function, inlined bool, args, binds []ssa.Value, d
 			src := in
 			if call, ok := in.(*ssa.Call); ok && !call.Call.IsInvoke() {
 				in = e.devirtualise(call, look)
+			} else if ok && call.Call.IsInvoke() {
+				in = e.devirtualiseInvoke(call, look)
 			}
 			// inlinable static call?
 			if call, ok := in.(*ssa.Call); ok && depth > 0 {
